@@ -67,21 +67,21 @@ func (e *vpEnvModel) Set(name, val string) {
 // {A,B,a,b} (so case folding and coincidences arise).
 func vpEnvName() string {
 	if vpBool() {
-		return vpStr(1, "A-Ba-b")
+		return vpStr(1, "ABa")
 	}
-	return "$" + vpStr(1, "A-Ba-b") // a name built by expansion
+	return "$" + vpStr(1, "ABa") // a name built by expansion
 }
 
 func vpEnvValue() string {
 	switch vpInt(0, vpParam("valueshapes")-1) {
 	case 0:
-		return vpStrUpTo(1, "A-Bax")
+		return vpStrUpTo(1, "ABax")
 	case 1:
-		return "$" + vpStr(1, "A-Ba-b")
+		return "$" + vpStr(1, "ABa")
 	case 2:
-		return vpStr(1, "ax") + "${" + vpStr(1, "A-Ba-b") + "}"
+		return vpStr(1, "ax") + "${" + vpStr(1, "ABa") + "}"
 	}
-	return "$$" + vpStr(1, "A-Ba-b") // escaped: stays a literal $V
+	return "$$" + vpStr(1, "ABa") // escaped: stays a literal $V
 }
 
 func vpH_c10_envblock() {
@@ -93,8 +93,8 @@ func vpH_c10_envblock() {
 	model := &vpEnvModel{fold: fold}
 	nc := vpInt(0, vpParam("callervars"))
 	for i := 0; i < nc; i++ {
-		name := vpStr(1, "A-Ba-b")
-		val := vpStrUpTo(1, "A-Bax") // values share letters with names: an expanded name can hit a caller variable
+		name := vpStr(1, "ABa")
+		val := vpStrUpTo(1, "ABax") // values share letters with names: an expanded name can hit a caller variable
 		caller.Set(name, val)
 		model.Set(name, val)
 	}
@@ -110,7 +110,7 @@ func vpH_c10_envblock() {
 		srcV = append(srcV, v)
 		p.Env.Set(k, v)
 	}
-	cmd := "c $" + vpStr(1, "A-Ba-b")
+	cmd := "c $" + vpStr(1, "ABa")
 	step := &CommandStep{Command: cmd}
 	p.Steps = Steps{step}
 
@@ -121,10 +121,7 @@ func vpH_c10_envblock() {
 		v2, err2 := interpolate.Interpolate(model, srcV[i])
 		vpAssume(err1 == nil && err2 == nil)
 		for _, o := range wantK {
-			vpAssume(o != k2) // collisions after expansion are not defined by the property
-		}
-		for j := i + 1; j < n; j++ {
-			vpAssume(srcK[j] != k2)
+			vpAssume(o != k2) // two entries with the same expanded name: not defined by the property
 		}
 		wantK = append(wantK, k2)
 		wantV = append(wantV, v2)
